@@ -6,8 +6,27 @@
      deferred_when_reached for re-entrant runs *)
 From Coq Require Import List NArith ZArith Bool Sorted.
 Import ListNotations.
-Require Import Verif.Lib.Wire Verif.Lib.C04Sort Verif.Gen.Facts_C04 Verif.Model.C04.
-Require Import Verif.Proofs.C04 Verif.Proofs.C04_flat Verif.Proofs.C04_decide Verif.Proofs.C04_safe Verif.Proofs.C04_groups Verif.Proofs.C04_spec Verif.Proofs.C04_mono Verif.Proofs.C04_one Verif.Proofs.C04_defer Verif.Proofs.C04_step Verif.Proofs.C04_all Verif.Proofs.C04_order.
+Require Import Verif.Lib.Wire Verif.Lib.C04Sort Verif.Gen.Facts_C04 Verif.Model.C04 Verif.Gen.Exec_C04.
+Require Import Verif.Proofs.C04 Verif.Proofs.C04_flat Verif.Proofs.C04_decide Verif.Proofs.C04_safe Verif.Proofs.C04_groups Verif.Proofs.C04_spec Verif.Proofs.C04_mono Verif.Proofs.C04_one Verif.Proofs.C04_defer Verif.Proofs.C04_step Verif.Proofs.C04_all Verif.Proofs.C04_order Verif.Proofs.C04_gen.
+
+(* ---- the control flow of ActionState.execute_actions and of ActionConfiguratorMixin.action is REGENERATED from the
+   source on every run (harness/c04/translate.py -> Gen/Exec_C04.v); it equals the hand-written model *)
+Theorem C04_generated_execute_actions_is_model : forall cfg fuel acts,
+  gen_execute_actions cfg fuel acts = exec cfg fuel cstate0 gen0 acts log0.
+Proof. exact gen_execute_actions_exec. Qed.
+Print Assumptions C04_generated_execute_actions_is_model.
+
+Theorem C04_generated_config_action_is_model : forall includepath i d o adds,
+  gen_config_action includepath i d o adds = declare includepath i d o adds.
+Proof. exact gen_config_action_declare. Qed.
+Print Assumptions C04_generated_config_action_is_model.
+
+(* the property's first sentence, restated about the generated function *)
+Theorem C04_generated_commit_spec : forall acts,
+  flat acts = true -> wf_ids acts = true -> wf_orders acts = true ->
+  obs (gen_execute_actions cfg_current (S (forest_size acts)) acts) = commit_spec acts.
+Proof. exact gen_commit_spec. Qed.
+Print Assumptions C04_generated_commit_spec.
 
 (* the regenerated facts say: both repairs are in place (every new action is tested against an
    already executed one; discarded actions leave remaining_actions) *)
